@@ -1154,6 +1154,17 @@ def enumerate_cases(base_seed, tier):
                                                {'op': 'RUN', 'doc': 1, 'r': rr}, {'op': 'RUN', 'doc': 0, 'r': rr},
                                                {'op': 'RUN', 'doc': 1, 'r': rr}, {'op': 'RUN', 'doc': 1, 'r': 1 - rr}]})
     out += pauxdirs_cases(base_seed, tier)
+    # xr in each of its option forms x every kind of labelled object (incl. one object with two labels), fault-free
+    kinds = ['section2', 'section', 'equation', 'figure', 'item', 'emptysection', 'starsection']
+    for mode in ('plain', 'prefix', 'url', 'both'):
+        for lsuf in (('', ':\u00e9') if tier == 'thorough' else ('',)):
+            docs = [{'items': [['section', 0, 0]], 'refs': [[1, k] for k in range(len(kinds))], 'next': 1, 'fancy': False, 'lsuf': lsuf},
+                    {'items': [[kd, k, 0] for k, kd in enumerate(kinds)], 'refs': [[0, 0]], 'next': len(kinds), 'fancy': True, 'lsuf': lsuf}]
+            sw = {'m': 2, 'renderers': ['HTML5', 'XHTML'], 'docs': docs, 'xr': mode, 'enabled': [], 'fancy_names': False,
+                  'base_url': '', 'fault_free': True}
+            out.append({'property': PID, 'seed': core.h64('C20-xr', mode, lsuf), 'swarm': sw,
+                        'ops': [{'op': 'RUN', 'doc': 1, 'r': 0}, {'op': 'RUN', 'doc': 0, 'r': 0}, {'op': 'RUN', 'doc': 1, 'r': 1},
+                                {'op': 'RUN', 'doc': 0, 'r': 1}, {'op': 'RUN', 'doc': 0, 'r': 0}, {'op': 'RUN', 'doc': 1, 'r': 0}]})
     return out
 
 
